@@ -237,6 +237,26 @@ class StmtMixin:
             if not broke:
                 self.exec_block(st.orelse, fr)
             return
+        if isinstance(it, PList) and not it.sym_elem_of and all(not isinstance(i, Splice) for i in it.items) and all(len(i.items) == 1 for i in it.items if isinstance(i, Rep)):
+            # mixed list: concrete items one by one, repeated parts symbolically
+            broke = False
+            for item in list(it.items):
+                if isinstance(item, Rep):
+                    if self.symbolic_iteration(st, item.items[0], item.over, fr):
+                        broke = True
+                        break
+                    continue
+                self.assign(st.target, item, fr)
+                try:
+                    self.exec_block(st.body, fr)
+                except BreakSig:
+                    broke = True
+                    break
+                except ContinueSig:
+                    continue
+            if not broke:
+                self.exec_block(st.orelse, fr)
+            return
         self.symbolic_for(st, it, fr)
 
     def concrete_seq(self, it):
@@ -307,6 +327,17 @@ class StmtMixin:
     def symbolic_for(self, st, it, fr):
         site = f"{fr.module.rel}:{st.lineno}"
         elem, over = self.sym_elem(it, site)
+        broke = self.symbolic_iteration(st, elem, over, fr)
+        if st.orelse:
+            if broke:
+                self.note(f"loop at {site}: left by break")
+            else:
+                # the symbolic iteration did not break: loop may complete -> else runs
+                self.exec_block(st.orelse, fr)
+
+    def symbolic_iteration(self, st, elem, over, fr):
+        """One generic iteration of a loop over a symbolic iterable; returns True if it broke."""
+        site = f"{fr.module.rel}:{st.lineno}"
         # loop-carried variables: stored and loaded inside the body
         carried = _CARRIED.get(id(st))
         if carried is None:
@@ -353,12 +384,7 @@ class StmtMixin:
                 fr.locals[name] = init
             else:
                 fr.locals[name] = TNode("$Nest", {"init": init, "step": new, "hole": h, "over": Cst(over)}, site)
-        if st.orelse:
-            if broke:
-                self.note(f"loop at {site}: left by break")
-            else:
-                # the symbolic iteration did not break: loop may complete -> else runs
-                self.exec_block(st.orelse, fr)
+        return broke
 
     # ------------------------------------------------------ list recording
     def start_recording(self):
